@@ -21,6 +21,8 @@ function judge(c, resps) {
   const r = resps[0];
   if (r.parse_error) return { engineError: 'generated history does not parse: ' + r.parse_error };
   if (r.panic || r.died || r.hang || !r.eval_js) return { skip: true };
+  // a history with an item for which the transform *must* report an error (await / yield in slot content) has no output program to judge once it did
+  if ((r.diags || []).some((d) => d.level === 'error') && c.items && c.items.some((it) => it.d && H.D[it.d].diag)) return { skip: true };
   const viol = [];
   // static: no new free variables (identity = name + syntax context after re-resolution of the printed output)
   if (Array.isArray(r.free_out)) {
